@@ -328,11 +328,21 @@ Proof.
 Qed.
 
 (* ---------- what save_success leaves in the record ---------- *)
-Definition fs_below (fs : fsys) (clk : Z) : Prop := forall f st, fs f = Some st -> mtime st < clk.
-(* every md5 entry was the true state of its file at the time its mtime was the recorded one *)
-Definition rec_truthful (fs : fsys) (clk : Z) (r : rec) : Prop :=
-  forall f m sz dg, r_saved r f = Some (MD5state m sz dg) ->
-    m < clk /\ forall st, fs f = Some st -> mtime st = m -> size st = sz /\ md5 (content st) = dg.
+(* [sn] : every version (mtime -> size, content) each file ever had (the ghost s_seen of History.v);
+   the file system only shows versions that are in it *)
+Definition seen_t := file -> Z -> option (Z * N).
+Definition fs_seen (fs : fsys) (sn : seen_t) : Prop :=
+  forall f st, fs f = Some st -> sn f (mtime st) = Some (size st, content st).
+(* every md5 entry is the true (size, digest) of the version of its file that carried the recorded mtime *)
+Definition rec_truthful (sn : seen_t) (r : rec) : Prop :=
+  forall f m sz dg, r_saved r f = Some (MD5state m sz dg) -> exists c, sn f m = Some (sz, c) /\ md5 c = dg.
+Lemma truthful_now fs sn r f m sz dg st :
+  fs_seen fs sn -> rec_truthful sn r -> r_saved r f = Some (MD5state m sz dg) -> fs f = Some st -> mtime st = m ->
+  size st = sz /\ md5 (content st) = dg.
+Proof.
+  intros Hb Ht He Hf Hm. destruct (Ht f m sz dg He) as (c & H1 & H2).
+  apply Hb in Hf. rewrite Hm in Hf. rewrite Hf in H1. inversion H1; subst. auto.
+Qed.
 Definition entries_typed (c : ck) (r : rec) : Prop := forall f e, r_saved r f = Some e -> typed c e = true.
 Definition rec_typed (r : rec) : Prop :=
   match r_checker r with Some c => entries_typed c r | None => forall f, r_saved r f = None end.
@@ -351,12 +361,12 @@ Proof.
   right. split; auto. exists sz, dg. auto.
 Qed.
 
-Lemma save_files_spec c fs clk deps : forall r r' o,
-  fs_below fs clk -> rec_truthful fs clk r -> entries_typed c r ->
+Lemma save_files_spec c fs sn deps : forall r r' o,
+  fs_seen fs sn -> rec_truthful sn r -> entries_typed c r ->
   save_files md5 c fs r deps = (r', o) ->
   (r_deps r' = r_deps r /\ r_checker r' = r_checker r /\ r_values r' = r_values r /\
    r_result r' = r_result r /\ r_ignore r' = r_ignore r) /\
-  rec_truthful fs clk r' /\ entries_typed c r' /\
+  rec_truthful sn r' /\ entries_typed c r' /\
   (forall f, good c fs r f -> good c fs r' f) /\
   match o with
   | SaveDone => forall f, In f deps -> good c fs r' f
@@ -373,10 +383,9 @@ Proof.
     + rewrite E in H.
       set (r1 := set_saved r f (Some (state_of md5 c st))) in *.
       assert (Hs1 : forall g, r_saved r1 g = if N.eqb g f then Some (state_of md5 c st) else r_saved r g) by reflexivity.
-      assert (Ht1 : rec_truthful fs clk r1).
+      assert (Ht1 : rec_truthful sn r1).
       { intros g m sz dg Hg. rewrite Hs1 in Hg. destruct (N.eqb_spec g f) as [->|Hne]; [|apply (Ht g); auto].
-        destruct c; simpl in Hg; [|discriminate]. inversion Hg; subst. split; [apply (Hb f); auto|].
-        intros st' Hst' _. rewrite Ef in Hst'. inversion Hst'; subst; auto. }
+        destruct c; simpl in Hg; [|discriminate]. inversion Hg; subst. exists (content st). split; [apply (Hb f); auto | reflexivity]. }
       assert (Hty1 : entries_typed c r1).
       { intros g e Hg. rewrite Hs1 in Hg. destruct (N.eqb_spec g f) as [->|Hne]; [|apply (Hty g); auto].
         inversion Hg; subst. apply typed_state_of. }
@@ -393,7 +402,7 @@ Proof.
     + rewrite E in H.
       assert (Hgf : good MD5 fs r f).
       { exists st. split; auto. rewrite Ee. simpl.
-        destruct (Ht f _ _ _ Ee) as [_ Hx]. destruct (Hx st Ef eq_refl) as [-> ->]. reflexivity. }
+        destruct (truthful_now fs sn r f _ _ _ st Hb Ht Ee Ef eq_refl) as [-> ->]. reflexivity. }
       destruct (IH r r' o Hb Ht Hty H) as (Hfr & Ht' & Hty' & Hmono & Ho).
       split; [exact Hfr|]. split; auto. split; auto. split; auto.
       destruct o; auto.
@@ -401,10 +410,10 @@ Proof.
       * destruct Ho; split; simpl; auto.
 Qed.
 
-Lemma save_success_rec_spec v c fs clk r0 deps vals res r' o :
-  fixB v = true -> fs_below fs clk -> rec_truthful fs clk r0 -> rec_typed r0 ->
+Lemma save_success_rec_spec v c fs sn r0 deps vals res r' o :
+  fixB v = true -> fs_seen fs sn -> rec_truthful sn r0 -> rec_typed r0 ->
   save_success_rec md5 v c fs r0 deps vals res = (r', o) ->
-  rec_truthful fs clk r' /\ r_checker r' = Some c /\ entries_typed c r' /\
+  rec_truthful sn r' /\ r_checker r' = Some c /\ entries_typed c r' /\
   match o with
   | SaveDone => r_deps r' = Some deps /\ r_values r' = vals /\ forall f, In f deps -> good c fs r' f
   | SaveMissing f => In f deps /\ fs f = None
@@ -413,7 +422,7 @@ Lemma save_success_rec_spec v c fs clk r0 deps vals res r' o :
 Proof.
   intros HB Hb Ht Hty H. unfold save_success_rec in H.
   set (r0' := wipe_if_other_checker v c r0) in *.
-  assert (Hw : rec_truthful fs clk r0' /\ entries_typed c r0').
+  assert (Hw : rec_truthful sn r0' /\ entries_typed c r0').
   { unfold r0', wipe_if_other_checker. unfold rec_typed in Hty. rewrite HB.
     destruct (r_checker r0) as [p|] eqn:Ep.
     - destruct (ck_eqb p c) eqn:Epc; simpl.
@@ -423,9 +432,9 @@ Proof.
   destruct Hw as [Ht0 Hty0].
   match type of H with context [save_files md5 c fs ?r deps] => set (r3 := r) in * end.
   destruct (save_files md5 c fs r3 deps) as [r4 o4] eqn:E4.
-  assert (Ht3 : rec_truthful fs clk r3) by (unfold r3; destruct res; exact Ht0).
+  assert (Ht3 : rec_truthful sn r3) by (unfold r3; destruct res; exact Ht0).
   assert (Hty3 : entries_typed c r3) by (unfold r3; destruct res; exact Hty0).
-  destruct (save_files_spec c fs clk deps r3 r4 o4 Hb Ht3 Hty3 E4) as ((F1 & F2 & F3 & _) & Ht4 & Hty4 & _ & Ho).
+  destruct (save_files_spec c fs sn deps r3 r4 o4 Hb Ht3 Hty3 E4) as ((F1 & F2 & F3 & _) & Ht4 & Hty4 & _ & Ho).
   assert (Hc3 : r_checker r3 = Some c) by (unfold r3; destruct res; reflexivity).
   assert (Hv3 : r_values r3 = vals) by (unfold r3; destruct res; reflexivity).
   clearbody r3.
